@@ -143,6 +143,8 @@ def _after_ser_writer(m, st, saved, res):
     if r.disc != 0: return r
     txt = sv(r.payload[0].f[0]).data
     w = sv(saved)
+    if isinstance(w, Agg) and w.ty == 'Vec':          # impl Write for Vec<u8>: appends
+        w.f.extend(IntV(b, 'u8') for b in txt.encode('utf-8')); return ok(UNIT)
     if not isinstance(w, WriterV): raise Inconclusive('to_writer into %r' % (w,))
     bs = list(txt.encode('utf-8'))
     if w.failed or (w.limit is not None): raise Inconclusive('C15 jobs use an unlimited writer')
